@@ -2,13 +2,17 @@ package props
 
 import (
 	"fmt"
+	"go/constant"
 	"go/token"
+	"sort"
 	"strings"
 
 	"golang.org/x/tools/go/ssa"
 
 	"utilcheck/flow"
 	"utilcheck/lang"
+	"utilcheck/pred"
+	"utilcheck/tab"
 )
 
 func init() {
@@ -29,6 +33,18 @@ func init() {
 func runC10(e *Env) {
 	ruleC10Lang(e)
 	ruleC10Same(e)
+	ruleC10Groups(e)
+	ruleC10Value(e)
+	e.S.Floor("C10.value", 4)
+	n0 := len(e.S.Obs)
+	ruleC02Zero(e)
+	for i := n0; i < len(e.S.Obs); i++ {
+		if e.S.Obs[i].Rule == "C02.zero" {
+			e.S.Obs[i].Rule = "C10.empty"
+		}
+	}
+	e.S.Floor("C10.groups", 6)
+	e.S.Floor("C10.empty", 2)
 	// the value function(s): in-repo callees of the parser that receive an element of the sub-match slice
 	if dp := e.Fn("C10.case", "roman", "DefaultParser"); dp != nil {
 		alphabet := romanAlphabet(e)
@@ -220,4 +236,400 @@ func romanAlphabet(e *Env) string {
 		return ""
 	}
 	return sp.Alphabet(ds[0])
+}
+
+// ruleC10Groups: the groups table and how DefaultParser pairs it with the capture groups.
+func ruleC10Groups(e *Env) {
+	const rule = "C10.groups"
+	p := e.P.ByPkg["roman"]
+	dp := e.Fn(rule, "roman", "DefaultParser")
+	if p == nil || dp == nil {
+		return
+	}
+	rows, pos, err := tab.StructRows(p, "groups")
+	if err != nil {
+		e.S.Unk(rule, "roman.groups", "literal", err.Error(), "")
+		return
+	}
+	if g := e.Var(rule, "roman", "groups"); g != nil {
+		e.Flow(func(c *flow.Ctx) { c.RuleTableConst(rule, g) })
+	}
+	pp := e.P.SSA.Fset.Position(pos)
+	tpos := shortPos(pp.Filename, pp.Line)
+	want := []struct {
+		unit      int64
+		five, ten rune
+		one       rune
+	}{{100, 'D', 'M', 'C'}, {10, 'L', 'C', 'X'}, {1, 'V', 'X', 'I'}}
+	if len(rows) != 3 {
+		e.S.Bad(rule, "roman.groups", "length", fmt.Sprintf("%d groups, the numeral has hundreds, tens and units", len(rows)), tpos, "")
+		return
+	}
+	for i, r := range rows {
+		construct := fmt.Sprintf("[%d]", i)
+		u, ok1 := constInt64(r["Unit"])
+		f, ok2 := constInt64(r["Digit5"])
+		t, ok3 := constInt64(r["Digit10"])
+		switch {
+		case !ok1 || !ok2 || !ok3:
+			e.S.Unk(rule, "roman.groups", construct, "row is not {Unit, Digit5, Digit10} of constants", tpos)
+		case u != want[i].unit || rune(f) != want[i].five || rune(t) != want[i].ten:
+			e.S.Bad(rule, "roman.groups", construct, fmt.Sprintf("row %d is (%d, %q, %q); capture group %d is the %s group: (%d, %q, %q)", i, u, rune(f), rune(t), i+2, []string{"hundreds", "tens", "units"}[i], want[i].unit, want[i].five, want[i].ten), tpos, "")
+		default:
+			e.S.Ok(rule, "roman.groups", construct, fmt.Sprintf("(%d, %q, %q) ↔ capture %d", u, rune(f), rune(t), i+2), tpos)
+		}
+	}
+	// pairing in the parser: thousands = len(capture 1) * 1000; group i ↔ capture i+2; results accumulated by +
+	site := flow.FnName(dp)
+	thousandsOK, pairingOK, accOK := false, false, false
+	var accPhi *ssa.Phi
+	for _, b := range dp.Blocks {
+		for _, in := range b.Instrs {
+			switch x := in.(type) {
+			case *ssa.BinOp:
+				if x.Op == token.MUL {
+					if k, ok := flow.ConstInt(x.Y); ok && k == 1000 {
+						if a, ok := flow.IsLenOf(x.X); ok {
+							if c, ok := captureIndexOf(a); ok && c == 1 {
+								thousandsOK = true
+							}
+						}
+					}
+				}
+			case *ssa.Call:
+				callee := e.C.StaticCallee(&x.Call)
+				if callee == nil || !flow.InRepo(callee) || len(x.Call.Args) != 4 {
+					continue
+				}
+				// arg0 = p[i+2] with i the range index over groups; args 1..3 = fields 0,1,2 of the range element
+				u, ok := x.Call.Args[0].(*ssa.UnOp)
+				if !ok {
+					continue
+				}
+				ia, ok := u.X.(*ssa.IndexAddr)
+				if !ok {
+					continue
+				}
+				add, ok := ia.Index.(*ssa.BinOp)
+				if !ok || add.Op != token.ADD {
+					continue
+				}
+				k, isK := flow.ConstInt(add.Y)
+				if !isK || k != 2 {
+					e.S.Bad(rule, site, "pairing", fmt.Sprintf("group i is paired with capture i+%d; capture 1 is the thousands, so the groups start at capture 2", k), e.posOf(x), "")
+					pairingOK = true
+					continue
+				}
+				fieldsOK := true
+				for ai := 1; ai <= 3; ai++ {
+					ld, ok := x.Call.Args[ai].(*ssa.UnOp)
+					if !ok {
+						fieldsOK = false
+						continue
+					}
+					fa, ok := ld.X.(*ssa.FieldAddr)
+					if !ok || fa.Field != ai-1 {
+						fieldsOK = false
+					}
+				}
+				if fieldsOK {
+					pairingOK = true
+					e.S.Ok(rule, site, "pairing", "group i is evaluated on capture i+2 with (Unit, Digit5, Digit10) of groups[i]", e.posOf(x))
+				} else {
+					pairingOK = true
+					e.S.Bad(rule, site, "pairing", "the value function does not receive (Unit, Digit5, Digit10) of the same group in that order", e.posOf(x), "")
+				}
+				for _, r := range *x.Referrers() {
+					if bo, ok := r.(*ssa.BinOp); ok && bo.Op == token.ADD {
+						if ph, ok := bo.X.(*ssa.Phi); ok {
+							accPhi = ph
+							accOK = true
+						}
+					}
+				}
+			}
+		}
+	}
+	if thousandsOK {
+		e.S.Ok(rule, site, "thousands", "thousands = len(capture 1) × 1000", e.Pos(dp))
+	} else {
+		e.S.Bad(rule, site, "thousands", "the thousands are not computed as len(capture 1) × 1000", e.Pos(dp), "MM")
+	}
+	if !pairingOK {
+		e.S.Unk(rule, site, "pairing", "call of the value function on p[i+2] not found", e.Pos(dp))
+	}
+	if accOK && accPhi != nil {
+		e.S.Ok(rule, site, "sum", "group values are added to the running total", e.Pos(dp))
+	} else {
+		e.S.Bad(rule, site, "sum", "group values are not summed into the result", e.Pos(dp), "")
+	}
+}
+
+func constInt64(v constant.Value) (int64, bool) {
+	if v == nil || v.Kind() != constant.Int {
+		return 0, false
+	}
+	return constant.Int64Val(v)
+}
+
+// captureIndexOf: v is p[k] (load of element k of a FindSubmatch result), k constant.
+func captureIndexOf(v ssa.Value) (int64, bool) {
+	u, ok := v.(*ssa.UnOp)
+	if !ok {
+		return 0, false
+	}
+	ia, ok := u.X.(*ssa.IndexAddr)
+	if !ok {
+		return 0, false
+	}
+	call, ok := ia.X.(*ssa.Call)
+	if !ok || call.Call.StaticCallee() == nil || !strings.HasPrefix(call.Call.StaticCallee().String(), "(*regexp.Regexp).FindSubmatch") {
+		return 0, false
+	}
+	return flow.ConstInt(ia.Index)
+}
+
+// ruleC10Value: the value function of a group as a decision table, and that table evaluated (inside the checker)
+// on every word of the group's capture language against an independent roman-numeral evaluator.
+func ruleC10Value(e *Env) {
+	ruleGroupValue(e, "C10.value", nil)
+}
+
+// ruleGroupValue: see ruleC10Value; digits (optional) maps capture → emitted literal → decimal digit and adds the
+// group-level round trip formatter literal ↦ value function ↦ digit.
+func ruleGroupValue(e *Env, rule string, digits map[int]map[string]int) {
+	pg := e.Fn(rule, "roman", "parseGroup")
+	if pg == nil {
+		return
+	}
+	site := flow.FnName(pg)
+	keyOf := func(a, b pred.Val) (string, bool) {
+		if a.String() == "len(input)" {
+			if c, ok := b.(pred.Const); ok && c.V != nil {
+				return "len==" + c.V.ExactString(), true
+			}
+		}
+		if el, ok := a.(pred.Elem); ok && el.Base.String() == "input" {
+			if ic, ok := el.Index.(pred.Const); ok && ic.V != nil {
+				if cn, ok := pred.Canon(b); ok && (cn.Root == "digit5" || cn.Root == "digit10") && (cn.C == 0 || cn.C == 32) {
+					return fmt.Sprintf("in[%s]==%s+%d", ic.V.ExactString(), cn.Root, cn.C), true
+				}
+			}
+		}
+		return "", false
+	}
+	prune := func(assign map[string]int) bool {
+		eq := map[string]int{}
+		for k, v := range assign {
+			if v == 0 {
+				if i := strings.Index(k, "=="); i > 0 {
+					eq[k[:i]]++
+				}
+			}
+		}
+		for _, n := range eq {
+			if n > 1 {
+				return false
+			}
+		}
+		return true
+	}
+	mk := func() []pred.Val {
+		return []pred.Val{pred.Sym{Name: "input"}, pred.Sym{Name: "unit"}, pred.Sym{Name: "digit5"}, pred.Sym{Name: "digit10"}}
+	}
+	leaves, err := extractTree(e.P.SSA, pg, mk, nil, nil, keyOf, binDomain, prune)
+	if err != nil {
+		e.S.Unk(rule, site, "table", err.Error(), e.Pos(pg))
+		return
+	}
+	// interpret an outcome term as a function of the word length
+	outcome := func(v pred.Val) (func(l int64) int64, string, bool) {
+		s := canonVal(v).String()
+		switch {
+		case s == "0":
+			return func(int64) int64 { return 0 }, "0", true
+		case s == "unit":
+			return func(int64) int64 { return 1 }, "unit", true
+		}
+		var k int64
+		if n, _ := fmt.Sscanf(s, "*(%d,unit)", &k); n == 1 {
+			return func(int64) int64 { return k }, fmt.Sprintf("%d·unit", k), true
+		}
+		if s == "*(len(input),unit)" {
+			return func(l int64) int64 { return l }, "len·unit", true
+		}
+		if n, _ := fmt.Sscanf(s, "*(len(input)%d,unit)", &k); n == 1 {
+			return func(l int64) int64 { return l + k }, fmt.Sprintf("(len%+d)·unit", k), true
+		}
+		return nil, s, false
+	}
+	type rowT struct {
+		assign map[string]int
+		f      func(int64) int64
+		desc   string
+	}
+	var table []rowT
+	okTable := true
+	for _, lf := range leaves {
+		if lf.Err != nil {
+			e.S.Unk(rule, site, lf.String(), lf.Err.Error(), e.Pos(pg))
+			okTable = false
+			continue
+		}
+		f, desc, ok := outcome(lf.Out.Ret)
+		if !ok {
+			e.S.Unk(rule, site, lf.String(), "result "+desc+" is not of the form k·unit / (len+k)·unit", e.Pos(pg))
+			okTable = false
+			continue
+		}
+		table = append(table, rowT{lf.Assign, f, desc})
+	}
+	if !okTable {
+		return
+	}
+	e.S.Ok(rule, site, "table", fmt.Sprintf("value function extracted as a %d-row decision table over (length, first two bytes vs five/ten symbol in either case)", len(table)), e.Pos(pg))
+	// evaluate the table on a concrete word with concrete symbols (checker-side, no repository code involved)
+	apply := func(word string, five, ten byte) (int64, bool) {
+		for _, r := range table {
+			match := true
+			for k, v := range r.assign {
+				var truth bool
+				var idx int
+				var sym string
+				var off int
+				switch {
+				case strings.HasPrefix(k, "len=="):
+					var n int
+					fmt.Sscanf(k, "len==%d", &n)
+					truth = len(word) == n
+				default:
+					if n, _ := fmt.Sscanf(k, "in[%d]==", &idx); n != 1 {
+						return 0, false
+					}
+					rest := k[strings.Index(k, "==")+2:]
+					if n, _ := fmt.Sscanf(strings.Replace(rest, "+", " ", 1), "%s %d", &sym, &off); n != 2 {
+						return 0, false
+					}
+					if idx >= len(word) {
+						return 0, false // the table reads a byte the word does not have: index out of range
+					}
+					c := five
+					if sym == "digit10" {
+						c = ten
+					}
+					truth = word[idx] == c+byte(off)
+				}
+				if truth != (v == 0) {
+					match = false
+					break
+				}
+			}
+			if match {
+				return r.f(int64(len(word))), true
+			}
+		}
+		return 0, false
+	}
+	pat, ok := e.pattern(rule, "roman", "pattern")
+	if !ok {
+		return
+	}
+	for _, p := range romanPositions {
+		sub, err := lang.CaptureSub(pat, p.capture)
+		if err != nil {
+			continue
+		}
+		sp, ds, err := lang.Build(`^(?:` + sub + `)$`)
+		if err != nil {
+			continue
+		}
+		if sp.MaxLen(ds[0]) < 0 || sp.MaxLen(ds[0]) > 6 {
+			e.S.Unk(rule, "roman.pattern", p.table, "capture language is not a small finite language", "")
+			continue
+		}
+		words := enumerateWords(sp, ds[0], 6, "IVXLCDMivxlcdm")
+		bad := ""
+		for _, w := range words {
+			got, ok := apply(w, p.five[0], p.ten[0])
+			want := romanValue(strings.ToUpper(w)) / romanValue(p.one)
+			if !ok {
+				bad = fmt.Sprintf("%q is matched by capture %d but the value function's table does not cover it (index out of range or unmatched row)", w, p.capture)
+				break
+			}
+			if got != want {
+				bad = fmt.Sprintf("group text %q is worth %d × %s but the value function yields %d × unit", w, want, p.one, got)
+				break
+			}
+		}
+		if bad != "" {
+			e.S.Bad(rule, site, p.table+" group", bad, e.Pos(pg), "")
+		} else {
+			e.S.Ok(rule, site, p.table+" group", fmt.Sprintf("all %d words of capture %d (both letter cases) get their roman value from the extracted table", len(words), p.capture), e.Pos(pg))
+		}
+		if digits != nil {
+			var lits []string
+			for l := range digits[p.capture] {
+				lits = append(lits, l)
+			}
+			sort.Strings(lits)
+			for _, l := range lits {
+				d := digits[p.capture][l]
+				for _, w := range []string{l, strings.ToLower(l)} {
+					got, ok := apply(w, p.five[0], p.ten[0])
+					construct := fmt.Sprintf("%s digit %d as %q", p.table, d, w)
+					switch {
+					case !ok:
+						e.S.Bad(rule, site, construct, fmt.Sprintf("the formatter writes digit %d as %q but the parser's value table does not cover that text", d, w), e.Pos(pg), w)
+					case got != int64(d):
+						e.S.Bad(rule, site, construct, fmt.Sprintf("the formatter writes digit %d as %q, the parser's value function reads it back as %d", d, w, got), e.Pos(pg), w)
+					default:
+						e.S.Ok(rule, site, construct, fmt.Sprintf("%q ↦ %d × unit", w, d), e.Pos(pg))
+					}
+					if w == strings.ToLower(w) && w == l {
+						break
+					}
+				}
+			}
+		}
+	}
+}
+
+// enumerateWords lists the words of a finite language over the given letters (checker-side enumeration of the
+// automaton, bounded by maxLen).
+func enumerateWords(sp *lang.Space, d *lang.D, maxLen int, letters string) []string {
+	var out []string
+	var rec func(prefix string)
+	rec = func(prefix string) {
+		if sp.Accepts(d, prefix) {
+			out = append(out, prefix)
+		}
+		if len(prefix) == maxLen {
+			return
+		}
+		for _, c := range letters {
+			// prune: prefix+c must still be a prefix of some word — cheap check through the product with Σ* is not
+			// available here, so bound by length only (≤ 14^6 would be too many): use the alphabet of the language
+			rec2 := prefix + string(c)
+			if sp.PrefixLive(d, rec2) {
+				rec(rec2)
+			}
+		}
+	}
+	rec("")
+	return out
+}
+
+// romanValue evaluates a numeral written with upper-case letters by the subtractive rule (independent oracle).
+func romanValue(s string) int64 {
+	val := map[byte]int64{'I': 1, 'V': 5, 'X': 10, 'L': 50, 'C': 100, 'D': 500, 'M': 1000}
+	var tot int64
+	for i := 0; i < len(s); i++ {
+		v := val[s[i]]
+		if i+1 < len(s) && val[s[i+1]] > v {
+			tot -= v
+		} else {
+			tot += v
+		}
+	}
+	return tot
 }
